@@ -119,6 +119,83 @@ def run(chk):
             chk.violation('impl-vs-spec', desc, {'defined_on_impl': observable_defined, 'defined_by_XPath': bool(spec)})
         chk.nontrivial.add(repr(('gc', v, o, a, b)))
 
+    # ---- 1c. XPath 1.0 comparisons (section 3.4) over booleans, numbers, strings and node-sets: C07/XPath1.v compare1
+    import re as _re
+    import lxml.etree as _LE
+    from fractions import Fraction as _Fr
+    from elementpath import XPath1Parser as _P1
+    chk.prove(['theories/C15/Keys.v', 'theories/C15/KeysProofs.v', 'theories/C07/XPath1.v'], 'theories/C07/XPath1Properties.v')
+    POOL = ['', '1', ' 2 ', 'x', '3', 'true', '1.0', '-1', '1e1', 'Infinity', ' ', '.5', '5.', '+1', '0', '-0', '2', 'NaN', '1 1']
+    CODE1 = {t: k for k, t in enumerate(POOL)}
+    NUMRE = _re.compile(r'^[ \t\r\n]*-?([0-9]+(\.[0-9]*)?|\.[0-9]+)[ \t\r\n]*$')
+
+    def xnum(t):      # XPath 1.0 number(): the Number production with optional minus and surrounding whitespace
+        if NUMRE.match(t) is None:
+            return 'NNaN'
+        fr = _Fr(t.strip())
+        return f'NFin ({fr.numerator}) {fr.denominator}'
+
+    def slit(t):
+        return f'(mkstr {CODE1[t]} ({xnum(t)}) {"true" if t else "false"})'
+    NUML = [('0', 'NFin 0 1'), ('1', 'NFin 1 1'), ('2', 'NFin 2 1'), ('-1', 'NFin (-1) 1'), ('0.5', 'NFin 1 2'), ('3', 'NFin 3 1'),
+            ('(0 div 0)', 'NNaN'), ('(1 div 0)', 'NPInf'), ('(-1 div 0)', 'NNInf')]
+
+    def operand(k):
+        """-> (XPath 1.0 text with a placeholder for the node-set name, Coq obj, node strings or None)"""
+        r = rng.random()
+        if r < 0.15:
+            b = rng.choice([True, False])
+            return ('true()' if b else 'false()', f'OBool {"true" if b else "false"}', None)
+        if r < 0.35:
+            e, l = rng.choice(NUML)
+            return (e, f'ONum ({l})', None)
+        if r < 0.55:
+            t = rng.choice(POOL)
+            return (f"'{t}'", f'OStr {slit(t)}', None)
+        ns = [rng.choice(POOL) for _ in range(rng.choice([0, 1, 1, 2, 3]))]
+        return (f'n{k}', 'ONodes [' + '; '.join(slit(t) for t in ns) + ']', ns)
+    xcases = []
+    for _ in range(400 if quick else 20000):
+        a, b = operand(0), operand(1)
+        xcases.append((rng.randint(0, 5), a, b))
+    for ea in ('true()', 'false()'):           # fixed: every scalar pair with a boolean, every operator
+        for eb, lb in [(e, f'ONum ({l})') for e, l in NUML] + [(f"'{t}'", f'OStr {slit(t)}') for t in POOL]:
+            for o in range(6):
+                xcases.append((o, (ea, f'OBool {"true" if ea == "true()" else "false"}', None), (eb, lb, None)))
+    xmodel = core.run_coq_cases('C07', 'From EP Require Import C15.Keys C07.Model C07.XPath1.',
+                                [f'run_cmp1 {o} ({a[1]}) ({b[1]})' for o, a, b in xcases], chunk=500, tag='xp1') if model_ok else [None] * len(xcases)
+    lx_dis = 0
+    for (o, a, b), mo in zip(xcases, xmodel):
+        chk.evaluations += 1
+        chk.count('xpath1-cmp')
+        doc = '<r>' + ''.join(f'<n0>{t}</n0>' for t in (a[2] or [])) + ''.join(f'<n1>{t}</n1>' for t in (b[2] or [])) + '</r>'
+        expr = f'{a[0]} {GOPS[o]} {b[0]}'
+        desc = {'parser': 'XPath1Parser', 'expr': expr, 'doc': doc}
+        lroot = _LE.fromstring(doc)
+        eroot = ET.XML(doc)
+        try:
+            got = {select(lroot, expr, parser=_P1), select(eroot, expr, parser=_P1)}
+        except ElementPathError as e:
+            got = {'error ' + str(e.code)}
+        except Exception as e:
+            chk.violation('foreign-exception', desc, repr(e)[:200])
+            continue
+        if mo is None:
+            continue
+        want = bool(mo)
+        if got != {want}:
+            chk.corr_fail.append((desc, sorted(map(str, got)), want))
+            chk.violation('impl-vs-spec', desc, {'impl': sorted(map(str, got)), 'spec': want})
+        # (libxml2 reads an exponent in number('1e1'), which the Number production of XPath 1.0 does not have: skipped)
+        if '1e1' not in expr and '1e1' not in doc and lroot.xpath(expr) != want:
+            lx_dis += 1
+            if len(chk.notes) < 8:
+                chk.notes.append(f'spec/libxml2 disagreement: {expr} on {doc}: libxml2={lroot.xpath(expr)} spec={want}')
+        chk.nontrivial.add(repr(('xp1', expr, doc)))
+    chk.distribution['xpath1 comparisons: libxml2 vs spec disagreements'] = lx_dis
+    if lx_dis:
+        chk.obligations.append({'name': 'specification-agrees-with-libxml2(xpath1 comparisons)', 'ok': False, 'detail': '; '.join(chk.notes[:3])})
+
     # ---- 2. general comparisons on integer sequences (exists semantics) + untyped conversions
     gcases = []
     for _ in range(300 if quick else 20000):
